@@ -55,7 +55,14 @@ def _private_lean_workspace() -> None:
     import atexit
     import shutil
     import tempfile
-    private = Path(tempfile.mkdtemp(prefix="verif-lean-")) / "lean"
+    for old in Path(tempfile.gettempdir()).glob("verif-lean-*"):   # left behind by killed runs
+        try:
+            owner = int(old.name.split("-")[2])
+            if not Path(f"/proc/{owner}").exists():
+                shutil.rmtree(old, ignore_errors=True)
+        except (IndexError, ValueError):
+            pass
+    private = Path(tempfile.mkdtemp(prefix=f"verif-lean-{os.getpid()}-")) / "lean"
     shutil.copytree(LEAN, private, symlinks=True, ignore=shutil.ignore_patterns(".lock"))
     LEAN = private
     pid = os.getpid()
